@@ -1,0 +1,250 @@
+//! Verification hooks. Only compiled with `--cfg lace_verif`.
+//!
+//! Everything in here is inert unless a harness arms it through the thread-local [`Sink`]:
+//! with the sink disarmed every hook returns immediately and the program behaves exactly as it
+//! does without the cfg.
+//!
+//! The hooks turn the places where the VM and debugger touch the outside world (process exit,
+//! stdin, stdout/stderr) into observable, in-process events, and sample the machine state at the
+//! linearization points of the run loop (top of loop, after an executed instruction, after a
+//! debugger command).
+
+use std::cell::RefCell;
+use std::collections::VecDeque;
+
+pub use crate::term::Key;
+
+/// Typed unwind payloads. Raised with `resume_unwind` so no panic hook runs.
+#[derive(Debug, Clone, PartialEq)]
+pub enum Unwind {
+    /// `std::process::exit(code)` was about to be called.
+    Exit(i32),
+    /// The step budget was exhausted at the top of the run loop.
+    Fuel,
+    /// The injected key source ran dry while the line editor wanted another key.
+    KeysExhausted,
+}
+
+/// Full copy of the private `RunState`.
+#[derive(Clone)]
+pub struct Snapshot {
+    pub reg: [u16; 8],
+    pub pc: u16,
+    /// Condition code as its 3-bit value: 4 = N, 2 = Z, 1 = P, 0 = none.
+    pub cc: u8,
+    pub orig: u16,
+    pub mem: Box<[u16; 0x10000]>,
+}
+
+/// One raw hook event, in program order.
+#[derive(Debug, Clone)]
+pub enum Event {
+    /// Top of `RunEnvironment::run` loop.
+    Loop { pc: u16, attached: bool },
+    /// An instruction finished executing. `pc` is the address it was fetched from.
+    Exec { pc: u16, instr: u16 },
+    /// Top of the status loop in `Debugger::next_action`.
+    Status,
+    /// A command line was handed to the command parser (raw text, untrimmed).
+    CmdLine(String),
+    /// Text written to program output (stdout).
+    Stdout(String),
+    /// The `Halted` banner printed by the HALT trap.
+    HaltBanner,
+    /// Text written to debugger output (stderr).
+    Stderr(String),
+    /// An input byte was consumed by GETC / IN.
+    Input(u8),
+    /// The debugger detached (`quit` / end of input).
+    Detach,
+    /// A key was handled by the line editor: `(key, buffer, cursor, index, eol)`.
+    Key {
+        key: String,
+        buffer: String,
+        current: String,
+        cursor: usize,
+        index: usize,
+        eol: bool,
+    },
+}
+
+#[derive(Default)]
+pub struct Sink {
+    pub armed: bool,
+    pub fuel: Option<u64>,
+    pub input: VecDeque<u8>,
+    pub keys: Option<VecDeque<Key>>,
+    pub events: Vec<(Event, Option<Snapshot>)>,
+    /// Take a state sample with every `Loop`, `Exec` and `Status` event.
+    pub sample_state: bool,
+}
+
+thread_local! {
+    static SINK: RefCell<Sink> = RefCell::new(Sink::default());
+}
+
+pub fn with_sink<R>(f: impl FnOnce(&mut Sink) -> R) -> R {
+    SINK.with(|s| f(&mut s.borrow_mut()))
+}
+
+/// Arm the hooks on this thread with a fresh sink.
+pub fn arm(fuel: Option<u64>, input: &[u8], sample_state: bool) {
+    with_sink(|s| {
+        *s = Sink::default();
+        s.armed = true;
+        s.fuel = fuel;
+        s.input = input.iter().copied().collect();
+        s.sample_state = sample_state;
+    });
+}
+
+/// Disarm and return everything that was recorded.
+pub fn disarm() -> Vec<(Event, Option<Snapshot>)> {
+    with_sink(|s| {
+        s.armed = false;
+        s.keys = None;
+        std::mem::take(&mut s.events)
+    })
+}
+
+pub fn is_armed() -> bool {
+    with_sink(|s| s.armed)
+}
+
+pub fn set_keys(keys: Vec<Key>) {
+    with_sink(|s| s.keys = Some(keys.into_iter().collect()));
+}
+
+fn push(event: Event, snap: Option<Snapshot>) {
+    with_sink(|s| {
+        if s.armed {
+            s.events.push((event, snap));
+        }
+    });
+}
+
+fn wants_state() -> bool {
+    with_sink(|s| s.armed && s.sample_state)
+}
+
+// ---- hook entry points (called from the instrumented code) ----
+
+/// Called instead of letting `std::process::exit` run while armed.
+pub fn exit(code: i32) {
+    if is_armed() {
+        std::panic::resume_unwind(Box::new(Unwind::Exit(code)));
+    }
+}
+
+pub fn loop_top(state: &crate::runtime::RunState, attached: bool) {
+    if !is_armed() {
+        return;
+    }
+    let out_of_fuel = with_sink(|s| match &mut s.fuel {
+        Some(0) => true,
+        Some(n) => {
+            *n -= 1;
+            false
+        }
+        None => false,
+    });
+    let snap = wants_state().then(|| state.verif_snapshot());
+    push(
+        Event::Loop {
+            pc: state.pc(),
+            attached,
+        },
+        snap,
+    );
+    if out_of_fuel {
+        std::panic::resume_unwind(Box::new(Unwind::Fuel));
+    }
+}
+
+pub fn executed(state: &crate::runtime::RunState, pc: u16, instr: u16) {
+    if !is_armed() {
+        return;
+    }
+    let snap = wants_state().then(|| state.verif_snapshot());
+    push(Event::Exec { pc, instr }, snap);
+}
+
+pub fn status_loop(state: &crate::runtime::RunState) {
+    if !is_armed() {
+        return;
+    }
+    let snap = wants_state().then(|| state.verif_snapshot());
+    push(Event::Status, snap);
+}
+
+pub fn detach() {
+    push(Event::Detach, None);
+}
+
+pub fn command_line(line: &str) {
+    push(Event::CmdLine(line.to_string()), None);
+}
+
+pub fn stdout(text: &str) {
+    push(Event::Stdout(text.to_string()), None);
+}
+
+pub fn halt_banner() {
+    push(Event::HaltBanner, None);
+}
+
+pub fn stderr(text: &str) {
+    push(Event::Stderr(text.to_string()), None);
+}
+
+/// Next injected input byte, if armed and any is left.
+pub fn input_byte() -> Option<u8> {
+    let byte = with_sink(|s| if s.armed { s.input.pop_front() } else { None });
+    if let Some(byte) = byte {
+        push(Event::Input(byte), None);
+    }
+    byte
+}
+
+/// `true` if the line editor should take its keys from the injected source.
+pub fn keys_armed() -> bool {
+    with_sink(|s| s.armed && s.keys.is_some())
+}
+
+pub fn next_key() -> Key {
+    let key = with_sink(|s| s.keys.as_mut().and_then(|k| k.pop_front()));
+    match key {
+        Some(key) => key,
+        None => std::panic::resume_unwind(Box::new(Unwind::KeysExhausted)),
+    }
+}
+
+pub fn key_done(
+    key: String,
+    buffer: String,
+    current: String,
+    cursor: usize,
+    index: usize,
+    eol: bool,
+) {
+    push(
+        Event::Key {
+            key,
+            buffer,
+            current,
+            cursor,
+            index,
+            eol,
+        },
+        None,
+    );
+}
+
+/// Contents of the (thread-local) symbol table: `(label, line)`.
+pub fn symbols() -> Vec<(String, u16)> {
+    let mut list: Vec<(String, u16)> = crate::symbol::with_symbol_table(|sym| {
+        sym.iter().map(|(name, line)| (name.clone(), *line)).collect()
+    });
+    list.sort();
+    list
+}
